@@ -186,7 +186,7 @@ theorem RC_untyped {env : Env} {cx : PCtx} {k : SKw} {kids : Kids} {σ : D6.SSub
     have := R.and (R.ofBool (D6.literalOk k (.arr xs))) (R.and (R.ofBool (D6.arrOk k xs)) hA)
     refine this.congr2 ?_ ?_ <;> ac_rfl
   | obj kvs =>
-    simp only [constructV]
+    simp only [constructV, additionalPropsCheck, V.and_pass_right]
     have S := setup_untyped K N (baseKw k (partsOf cx k kids) d) rfl
     have hO := R_object (k := k) (fun _ => false) kvs S hv rfl rfl
       (by rw [S.split, List.append_nil]; exact required_strict env cx k kids σ d _ kvs N.propsNonempty')
